@@ -35,10 +35,15 @@
     [C02_quiescent_counts]: when no operation is in progress the count equals containers + handles
     minus the debts still in slots; [C02_no_owner_destroyed]: a value nobody owns has count 0, is
     destroyed, and no slot holds it (no leak, no slot left occupied).
+
+    RUN LENGTH INSTEAD OF [GenBound] ([ASModel.GenLen]): without the [set_generation] hook a generation
+    counter grows by at most 4 per step from 0, so for every run of fewer than 2^62 steps [GenBound]
+    holds in every state by itself; [RunOKLen] is [RunOK] with that hypothesis replaced by the bound
+    on the length of the schedule, and the theorem holds for it as well ([..._len] below).
 *)
 From ASModel Require Import Base State Orderings_gen Step Run Progress Hist Local Inv InvTl InvProto InvStep Sum StepCases.
 From ASModel Require Import GenDefs Gen1 Gen2 Gen EnvDefs Env4 Env AccDefs Acc1 Acc2 Acc3 Acc4 Acc5 Acc6 Acc7 Acc.
-From ASModel Require Import ProtDefs Prot1 Prot11 Prot16 Prot Typed LinDefs Lin2 Lin Safe1 Safe2 Safe7 Safe8 Safe Main.
+From ASModel Require Import ProtDefs Prot1 Prot11 Prot16 Prot Typed LinDefs Lin2 Lin Safe1 Safe2 Safe7 Safe8 Safe Main GenLen.
 
 Theorem C02_dec : forall s a,
   match heap s a with
@@ -114,6 +119,10 @@ Theorem C02_accounting_step : forall cf s t x,
   NoFault (fst (step cf s t x)) -> AccInv (fst (step cf s t x)).
 Proof. exact step_AccInv. Qed.
 
+Theorem C02_accounting_len : forall cf inits progs sched,
+  RunOKLen cf inits progs sched -> Acc (run_state cf (init_state inits progs) sched).
+Proof. exact GenLen.C02_accounting_len. Qed.
+
 Print Assumptions C02_dec.
 Print Assumptions C02_pay_slot.
 Print Assumptions C02_pay_inc.
@@ -123,3 +132,4 @@ Print Assumptions C02_accounting.
 Print Assumptions C02_quiescent_counts.
 Print Assumptions C02_no_owner_destroyed.
 Print Assumptions C02_accounting_step.
+Print Assumptions C02_accounting_len.
